@@ -63,3 +63,12 @@ pub fn vx_chars(s: &str) -> (r: Vec<char>)
 {
     s.chars().collect()
 }
+
+/// ASSUMED (A2): the byte length of a str (vstd: `s.len() == s.spec_bytes().len()`) is the UTF-8 encoded
+/// length of its characters
+#[verifier::external_body]
+pub broadcast proof fn axiom_str_byte_len(s: &str)
+    ensures #[trigger] vstd::string::StringSliceAdditionalSpecFns::spec_bytes(s).len() == boff(s@, s@.len() as int),
+        vstd::string::StringSliceAdditionalSpecFns::spec_bytes(s).len() <= usize::MAX,
+{
+}
